@@ -401,9 +401,24 @@ package router
 //@             && (len(cfg.Domain) > 0 ? ru.matcher == r.domainSets[cfg.Domain] && ru.reverse == cfg.Reverse : ru.matcher == nil && !ru.reverse)
 //@             && (len(cfg.Forward) > 0 ? ru.upstream == r.upstreams[cfg.Forward] : ru.upstream == nil)
 
-//@ func makeTlsConfig(cfg *TlsConfig, requireCert bool) (c *tls.Config, err error)
+//@ func loadCA(f string) (p *x509.CertPool, err error)
 //@   trusted
 //@   modifies nothing
+//@   ensures (err == nil) == (p != nil)
+
+// makeTlsConfig: peer verification stays on unless explicitly disabled; a configured CA becomes the root pool;
+// a listener configured to verify client certificates requires and verifies one against that CA (system roots
+// when none is configured); a listener without certificate and key is an error.
+//@ func makeTlsConfig(cfg *TlsConfig, requireCert bool) (c *tls.Config, err error)
+//@   props C17
+//@   requires cfg != nil
+//@   modifies nothing
+//@   ensures (err == nil) == (c != nil)
+//@   ensures [C17:listener-needs-certificate] requireCert && (cfg.Cert == "" || cfg.Key == "") && !cfg.DebugUseTempCert ==> err != nil
+//@   ensures [C17:verification-on-unless-disabled] err == nil ==> c.InsecureSkipVerify == cfg.InsecureSkipVerify
+//@   ensures [C17:configured-ca-is-the-root-pool] err == nil ==> (len(cfg.CA) > 0 ? c.RootCAs != nil : c.RootCAs == nil)
+//@   ensures [C17:client-certificate-required-and-verified] err == nil && cfg.VerifyClientCert ==> c.ClientAuth == tls.RequireAndVerifyClientCert && c.ClientCAs == c.RootCAs
+//@   ensures [C17:no-client-certificate-otherwise] err == nil && !cfg.VerifyClientCert ==> c.ClientAuth == tls.NoClientCert
 //@ func (r *router) subLoggerForUpstream(tag string) (l *zerolog.Logger)
 //@   trusted
 //@   modifies nothing
